@@ -13,6 +13,15 @@ HamiltonianChain objects and their outputs compared, inside Coq, with the Q mode
     inverse masses in {1, 4, 1/4, 16} or a dyadic matrix, n <= 8);
   * to 1e-12 relative (Qle_bool inside Coq) on arbitrary doubles / full matrices.
 
+Callables that KEEP what they return (round 4): the same routines are driven with a
+gradient function that returns its stored vector / a cached array / its output buffer
+(class KeeperGrad), over histories of several run_leapfrog calls on one chain (a new
+request, the reversed previous one, the same one again), and compared -- trajectory
+outputs and the final content of the callable's array -- with Model/LeapfrogShared.v,
+in which the returned array is shared with the callable (theorems
+Properties/C07Shared.v).  hamiltonian / finite_diff likewise get posteriors that
+return 0-d arrays they keep.
+
 Python only runs the implementation, converts floats to exact rationals and
 evaluates the *property* on the implementation (forward - flip - forward
 reversibility error, energy error under step halving, momentum law, finite_diff
@@ -47,6 +56,18 @@ THEOREMS = [
     "C07_finite_diff_exact_on_quadratics",
     "C07_finite_diff_error_bound",
     "C07_finite_diff_pinned_refuted",
+]
+
+SHARED_THEOREMS = [
+    "C07_shared_leapfrog_is_leapfrog",
+    "C07_shared_bounded_leapfrog_is_bounded_leapfrog",
+    "C07_shared_history",
+    "C07_shared_history_bounded",
+    "C07_shared_leapfrog_reversible",
+    "C07_shared_bounded_leapfrog_reversible",
+    "C07_stored_array_untouched",
+    "C07_stored_array_untouched_bounded",
+    "C07_inplace_scaling_refuted",
 ]
 
 KEY_D7 = "C07/finite-diff-zero-coordinate"
@@ -137,7 +158,9 @@ def rowsum(M):
 
 
 # ------------------------------------------------------------------ building the real chain
-def make_chain(case, grad_given=True, posterior=None):
+def make_chain(case, grad_given=True, posterior=None, grad_wrap=None, post_wrap=None):
+    """grad_wrap / post_wrap: optional functions turning the plain gradient / log-density
+    function into the callable object handed to the chain (KeeperGrad / KeeperPost)."""
     A, b = flm(case["A"]), fl(case["b"])
     d = len(case["b"])
 
@@ -172,7 +195,10 @@ def make_chain(case, grad_given=True, posterior=None):
         key = sum(int(v * 64) for v in want) + d + int(float(case["eps"]) * 1024)
         if (root * root == want).all() and key % 2 == 0:
             via_estimate = True
-    chain = HC()(posterior=posterior or logp, start=start, grad=grad if grad_given else None,
+    user_grad = grad_wrap(grad) if grad_wrap is not None else grad
+    if posterior is None:
+        posterior = post_wrap(logp) if post_wrap is not None else logp
+    chain = HC()(posterior=posterior, start=start, grad=user_grad if grad_given else None,
                  epsilon=float(case["eps"]), temperature=float(case["T"]), bounds=bounds,
                  inverse_mass=None if via_estimate else inv_mass, display_progress=False)
     if via_estimate:
@@ -447,6 +473,368 @@ def oracle_reversibility(case):
     return None
 
 
+# ------------------------------------------------------------------ callables that keep what they return
+KEEPER_KINDS = ("fresh", "stored", "memo", "buffer")
+KEEPER_WORDS = {
+    "fresh": "a new array on every call",
+    "stored": "the vector it stores (the constant gradient of a linear log-density, computed once)",
+    "memo": "the array it cached for the last point (returned again when asked at the same point)",
+    "buffer": "its own output buffer (rewritten on every call)",
+}
+
+
+class KeeperGrad:
+    """A user-side gradient function that returns an array it keeps (Model/LeapfrogShared.v:
+    KFresh / KStored / KMemo / KBuffer).  Before every call and at the end (`audit`) it compares
+    the array it handed out with a private copy of what it had put there: a difference means the
+    library wrote into the caller's array.  It goes on using its array as it finds it -- exactly
+    what a real stored vector / cache would do."""
+
+    def __init__(self, kind, fn, d, stored=None):
+        assert kind in KEEPER_KINDS
+        self.kind, self.fn = kind, fn
+        self.calls, self.hits = 0, 0
+        self.tampered = []
+        self.key = None
+        self.kept = None
+        if kind == "stored":
+            self.kept = np.array(stored, dtype=float)
+        elif kind == "buffer":
+            self.kept = np.zeros(d)
+        self.shadow = None if self.kept is None else self.kept.copy()
+
+    def audit(self):
+        if self.kept is not None and not np.array_equal(self.kept, self.shadow):
+            if len(self.tampered) < 4:
+                self.tampered.append({"after_gradient_call": self.calls, "returned": self.shadow.tolist(),
+                                      "found": self.kept.tolist()})
+            self.shadow = self.kept.copy()
+
+    def __call__(self, t):
+        self.audit()
+        self.calls += 1
+        if self.kind == "fresh":
+            return self.fn(t)
+        if self.kind == "stored":
+            return self.kept
+        if self.kind == "memo":
+            if self.key is not None and np.array_equal(t, self.key):
+                self.hits += 1
+                return self.kept
+            self.key = np.array(t, dtype=float)            # a copy: the library updates t in place
+            self.kept = np.array(self.fn(t), dtype=float)
+        else:
+            np.copyto(self.kept, self.fn(t))
+        self.shadow = self.kept.copy()
+        return self.kept
+
+
+class KeeperPost:
+    """A user-side log-density function that returns a 0-d array it keeps: 'memo' (the array of
+    the last point, returned again at the same point; a new array for a new point) or 'buffer'
+    (one 0-d array rewritten on every call).  Audited like KeeperGrad."""
+
+    def __init__(self, kind, fn):
+        assert kind in ("memo", "buffer")
+        self.kind, self.fn = kind, fn
+        self.calls = 0
+        self.tampered = []
+        self.key = None
+        self.kept = np.array(0.0) if kind == "buffer" else None
+        self.shadow = 0.0
+
+    def audit(self):
+        if self.kept is not None and not float(self.kept) == self.shadow:
+            if len(self.tampered) < 4:
+                self.tampered.append({"after_posterior_call": self.calls, "returned": self.shadow,
+                                      "found": float(self.kept)})
+            self.shadow = float(self.kept)
+
+    def __call__(self, t):
+        self.audit()
+        self.calls += 1
+        if self.kind == "memo":
+            if self.key is not None and np.array_equal(t, self.key):
+                return self.kept
+            self.key = np.array(t, dtype=float)
+            self.kept = np.array(float(self.fn(t)))
+        else:
+            self.kept[...] = float(self.fn(t))
+        self.shadow = float(self.kept)
+        return self.kept
+
+
+def zero_matrix(d):
+    return [[Fraction(0)] * d for _ in range(d)]
+
+
+def make_shared_chain(case, kind=None):
+    kind = kind or case["keeper"]
+    if kind == "stored":
+        assert all(x == 0 for row in case["A"] for x in row), "a stored gradient needs a linear log-density"
+    box = {}
+
+    def wrap(g):
+        box["k"] = KeeperGrad(kind, g, len(case["b"]), stored=fl(case["b"]))
+        return box["k"]
+    chain, _, _ = make_chain(case, grad_wrap=wrap)
+    return chain, box["k"]
+
+
+def run_shared(case, kind=None, exact=True):
+    """The history of run_leapfrog calls of `case` on ONE chain with ONE gradient callable of the
+    given kind.  history ops: ("reverse",) = the previous output with the momentum negated, same n;
+    ("repeat",) = the previous request again; ("new", t, r, n).  With exact=True the history stops
+    before a request that does not pass the a-priori bit budget."""
+    try:
+        with warnings.catch_warnings():
+            warnings.simplefilter("ignore")
+            chain, keeper = make_shared_chain(case, kind)
+            spy = ReflectSpy(chain)
+            reqs, outs = [], []
+            for op in [None] + [tuple(o) for o in case.get("history", [])]:
+                if op is None:
+                    req = (list(case["t"]), list(case["r"]), int(case["n"]))
+                elif op[0] == "reverse":
+                    req = (list(outs[-1][0]), [-x for x in outs[-1][1]], reqs[-1][2])
+                elif op[0] == "repeat":
+                    req = reqs[-1]
+                else:
+                    req = (list(op[1]), list(op[2]), int(op[3]))
+                if exact and reqs and not budget_ok(dict(case, t=req[0], r=req[1], n=req[2])):
+                    break
+                t0 = fl(req[0])
+                if chain.bounds is not None and ((t0 <= chain.bounds.lower) | (t0 >= chain.bounds.upper)).any():
+                    spy.on_wall = True
+                t, r = chain.run_leapfrog(t0, fl(req[1]), req[2])
+                reqs.append(req)
+                outs.append(([F(x) for x in t], [F(x) for x in r]))
+            keeper.audit()
+            kept = None if keeper.kept is None else [F(x) for x in keeper.kept]
+        return {"status": "ok", "reqs": reqs, "outs": outs, "kept": kept, "tampered": keeper.tampered,
+                "grad_calls": keeper.calls, "memo_hits": keeper.hits,
+                "flips": spy.n_flips, "on_wall": spy.on_wall, "near_wall": spy.near_wall}
+    except Exception as e:
+        return {"status": "exception", "error": repr(e)}
+
+
+def coq_keeper0(case):
+    d = len(case["b"])
+    return {"fresh": "KFresh", "stored": f"(KStored {qv(case['b'])})", "memo": "(KMemo None)",
+            "buffer": f"(KBuffer {qv([Fraction(0)] * d)})"}[case["keeper"]]
+
+
+def coq_shared(case, obs):
+    bnd = "None" if case["bounds"] is None else f"Some ({qv(case['bounds'][0])}, {qv(case['bounds'][1])})"
+    calls = C.clist([f"({qv(t)}, {qv(r)}, {C.cnat(n)})" for t, r, n in obs["reqs"]])
+    outs = C.clist([f"({qv(t)}, {qv(r)})" for t, r in obs["outs"]])
+    kept = "None" if obs["kept"] is None else f"Some {qv(obs['kept'])}"
+    return ("{| s_mass := " + coq_mass(case["mass"]) + "; s_inv_temp := " + C.cq(1 / case["T"]) +
+            "; s_eps := " + C.cq(case["eps"]) + "; s_A := " + qm(case["A"]) + "; s_b := " + qv(case["b"]) +
+            "; s_bounds := " + bnd + "; s_keeper := " + coq_keeper0(case) + "; s_calls := " + calls +
+            "; s_obs := " + outs + "; s_obs_kept := " + kept + " |}")
+
+
+def gen_history(r, case, exact):
+    """0-3 further run_leapfrog calls on the same chain."""
+    ops = []
+    d = len(case["t"])
+    for _ in range(r.choice([0, 1, 1, 2, 2, 3] if exact else [0, 1, 1, 2])):
+        u = r.random()
+        if u < 0.45:
+            ops.append(("reverse",))
+        elif u < 0.65:
+            ops.append(("repeat",))
+        else:
+            if case["bounds"] is not None:
+                lo, hi = case["bounds"]
+                if exact:
+                    t = [l + (h - l) * Fraction(r.randint(1, 15), 16) for l, h in zip(lo, hi)]
+                else:
+                    t = [F(float(l) + r.uniform(0.1, 0.9) * (float(h) - float(l))) for l, h in zip(lo, hi)]
+            elif exact:
+                t = [Fraction(r.randint(-40, 40), 16) for _ in range(d)]
+            else:
+                t = [F(r.uniform(-1, 1)) for _ in range(d)]
+            rr = [Fraction(r.randint(-64, 64), 16) for _ in range(d)] if exact else [F(r.gauss(0, 1)) for _ in range(d)]
+            ops.append(("new", t, rr, r.choice([1, 2, 3, 4, 5]) if exact else r.choice([1, 2, 3])))
+    return ops
+
+
+def gen_shared_case(r, bounded, exact):
+    kind = r.choice(["stored", "stored", "stored", "memo", "memo", "buffer", "buffer", "fresh"])
+    for _ in range(200):
+        case = gen_exact_case(r, bounded) if exact else gen_tol_case(r, bounded)
+        d = len(case["b"])
+        if kind == "stored":                      # a linear log-density: -rate . x (truncated to the box)
+            case["A"] = zero_matrix(d)
+            if all(x == 0 for x in case["b"]):
+                case["b"][r.randrange(d)] = Fraction(r.choice([-3, -1, 1, 2]), 2)
+        if exact:
+            if case["n"] < 2 and r.random() < 0.8:      # the loop body runs for n >= 2 only
+                case["n"] = r.choice([2, 3, 4, 5, 6])
+            while case["n"] > 1 and not budget_ok(case):
+                case["n"] -= 1
+            if not budget_ok(case):
+                continue
+        elif case["n"] < 2 and r.random() < 0.7:
+            case["n"] = r.choice([2, 3, 4])
+        case["keeper"] = kind
+        case["history"] = gen_history(r, case, exact)
+        return case
+    raise RuntimeError("could not generate a shared case")
+
+
+def run_takestep(case, seed, steps, n_take, kind=None):
+    """Histories produced by the sampler itself: `n_take` calls of take_step on one chain (scripted
+    generator, adaptation frozen) with a gradient callable of the given kind and a log-density
+    function that keeps its 0-d array; every run_leapfrog call take_step makes is recorded
+    (request, output, content of the callable's array afterwards)."""
+    from lib.samplers import freeze_adaptation
+    try:
+        with warnings.catch_warnings():
+            warnings.simplefilter("ignore")
+            kind = kind or case["keeper"]
+            box = {}
+
+            def gwrap(g):
+                box["k"] = KeeperGrad(kind, g, len(case["b"]), stored=fl(case["b"]))
+                return box["k"]
+
+            def pwrap(f):
+                box["p"] = KeeperPost("memo", f)
+                return box["p"]
+            chain, _, _ = make_chain(case, grad_wrap=gwrap, post_wrap=None if kind == "fresh" else pwrap)
+            keeper = box["k"]
+            chain.rng = ScriptedRNG(seed, uniform_bits=14)
+            chain.steps = steps
+            freeze_adaptation(chain)
+            orig = chain.run_leapfrog
+            reqs, outs, kepts = [], [], []
+
+            def spy(t, r, n):
+                req = ([F(x) for x in t], [F(x) for x in r], int(n))
+                out = orig(t, r, n)
+                reqs.append(req)
+                outs.append(([F(x) for x in out[0]], [F(x) for x in out[1]]))
+                kepts.append(None if keeper.kept is None else [F(x) for x in keeper.kept])
+                return out
+            chain.run_leapfrog = spy
+            chain.max_attempts = 5
+            gave_up = False
+            for _ in range(n_take):
+                try:
+                    chain.take_step()
+                except ValueError as e:      # every proposal rejected (unstable step size): a legitimate end
+                    if "Failed to take step" not in str(e):
+                        raise
+                    gave_up = True
+                    break
+            keeper.audit()
+            tampered = list(keeper.tampered)
+            if "p" in box:
+                box["p"].audit()
+                tampered += box["p"].tampered
+        return {"status": "ok", "reqs": reqs, "outs": outs, "kepts": kepts, "tampered": tampered,
+                "theta": [[float(x) for x in th] for th in chain.theta], "probs": [float(x) for x in chain.probs],
+                "memo_hits": keeper.hits, "gave_up": gave_up}
+    except Exception as e:
+        return {"status": "exception", "error": repr(e)}
+
+
+def takestep_as_history(case, obs):
+    """the recorded run_leapfrog calls as a plain history case (longest prefix within the bit budget)"""
+    k = 0
+    while k < min(len(obs["reqs"]), 8) and budget_ok(dict(case, t=obs["reqs"][k][0], r=obs["reqs"][k][1], n=obs["reqs"][k][2])):
+        k += 1
+    if k == 0:
+        return None, None
+    t, r, n = obs["reqs"][0]
+    hist = [("new", t2, r2, n2) for t2, r2, n2 in obs["reqs"][1:k]]
+    c2 = dict(case, t=t, r=r, n=n, history=hist, exact=True)
+    o2 = {"status": "ok", "reqs": obs["reqs"][:k], "outs": obs["outs"][:k], "kept": obs["kepts"][k - 1]}
+    return c2, o2
+
+
+def oracle_takestep(case, seed, steps, n_take):
+    """take_step must produce the same chain whether or not the callables keep their arrays,
+    and must not write into them"""
+    a = run_takestep(case, seed, steps, n_take)
+    if a["status"] != "ok":
+        return f"take_step failed with a gradient function that returns {KEEPER_WORDS[case['keeper']]}: {a['error']}"
+    if a["tampered"]:
+        return f"take_step wrote into an array returned by the user's gradient / log-density function: {a['tampered'][0]}"
+    b = run_takestep(case, seed, steps, n_take, kind="fresh")
+    if b["status"] == "ok" and (a["theta"] != b["theta"] or a["probs"] != b["probs"] or a["gave_up"] != b["gave_up"]):
+        return (f"take_step x{n_take} gives the samples {a['theta']} with a gradient function that returns "
+                f"{KEEPER_WORDS[case['keeper']]} but {b['theta']} with one that builds new arrays (same random draws)")
+    return None
+
+
+def _scale_of(outs):
+    return 1.0 + max([abs(float(x)) for t, r in outs for x in list(t) + list(r)] or [0.0])
+
+
+def oracle_shared(case, exact):
+    """The property evaluated on the implementation when the gradient callable keeps the array
+    it returns: (1) the library must not have written into that array; (2) every call of the
+    history returns what it returns for a callable that builds new arrays; (3) forward -- negate
+    the momentum -- forward with the one callable comes back to the start.  None if all hold."""
+    kind = case["keeper"]
+    words = KEEPER_WORDS[kind]
+    obs = run_shared(case, exact=exact)
+    if obs["status"] != "ok":
+        return "exception", f"run_leapfrog failed with a gradient function that returns {words}: {obs['error']}"
+    found = []
+    cls = None
+    if obs["tampered"]:
+        w = obs["tampered"][0]
+        cls = "modified"
+        found.append(f"the library wrote into the array returned by the user's gradient function (which returns "
+                     f"{words}): it had returned {w['returned']} and holds {w['found']} after gradient call "
+                     f"{w['after_gradient_call']}")
+    ref = run_shared(case, kind="fresh", exact=False)
+    if ref["status"] == "ok":
+        sc = _scale_of(ref["outs"])
+        for i, ((t, r), (t2, r2)) in enumerate(zip(obs["outs"], ref["outs"])):
+            err = max(abs(float(a) - float(b)) for a, b in zip(list(t) + list(r), list(t2) + list(r2)))
+            if not err <= 1e-9 * sc:
+                cls = cls or "trajectory"
+                found.append(f"run_leapfrog call {i + 1} of the history returns {[float(x) for x in t]}, "
+                             f"{[float(x) for x in r]} but {[float(x) for x in t2]}, {[float(x) for x in r2]} when the "
+                             f"gradient function builds a new array on every call (difference {err:.3g})")
+                break
+    if not (case["bounds"] is not None and case["mass"][0] == "matrix"):
+        rv = run_shared(dict(case, history=[("reverse",)]), exact=False)
+        if rv["status"] == "ok" and len(rv["outs"]) == 2 and not rv["on_wall"]:
+            t2, r2 = rv["outs"][1]
+            back = [float(x) for x in t2] + [-float(x) for x in r2]
+            start = [float(x) for x in case["t"]] + [float(x) for x in case["r"]]
+            err = max(abs(a - b) for a, b in zip(back, start))
+            if not err <= 1e-7 * _scale_of(rv["outs"] + [(case["t"], case["r"])]):
+                cls = cls or "trajectory"
+                found.append(f"forward - negate momentum - forward with the same gradient function does not return "
+                             f"to the start: error {err:.3g}")
+    if not found:
+        return None, None
+    return cls, "; ".join(found[:3])
+
+
+def shrink_shared(case, exact):
+    """smaller history / fewer steps that still fail"""
+    best = case
+    for cand in (dict(case, history=[]), dict(case, history=[], n=2), dict(case, history=[], n=3),
+                 dict(case, history=[("repeat",)], n=1)):
+        try:
+            if oracle_shared(cand, exact)[0]:
+                best = cand
+                if cand["n"] <= 2:
+                    break
+        except Exception:
+            pass
+    return best
+
+
 def _sum1(t):
     return np.ones_like(t) * t.sum()
 
@@ -459,12 +847,16 @@ NONQUAD = {
 }
 
 
-def energy_profile(name, d, mass, T, t0, r0, tau=1.0, levels=(16, 32, 64)):
-    """max_k |H(z_k) - H(z_0)| along the trajectory for eps = tau/n, n in levels, on the real code."""
+def energy_profile(name, d, mass, T, t0, r0, tau=1.0, levels=(16, 32, 64), keep=None, tamper_out=None):
+    """max_k |H(z_k) - H(z_0)| along the trajectory for eps = tau/n, n in levels, on the real code.
+    keep in ("memo", "buffer"): the gradient function returns an array it keeps (KeeperGrad) and the
+    log-density a 0-d array it keeps (KeeperPost); what the library wrote into them goes to tamper_out."""
     logp, grad = NONQUAD[name]
     out = []
     for n in levels:
-        chain = HC()(posterior=logp, start=np.array(t0, float), grad=grad, epsilon=tau / n,
+        kg = KeeperGrad(keep, grad, d) if keep else None
+        kp = KeeperPost("memo", logp) if keep else None
+        chain = HC()(posterior=kp or logp, start=np.array(t0, float), grad=kg or grad, epsilon=tau / n,
                      temperature=T, inverse_mass=mass, display_progress=False)
         chain.ES.epsilon = tau / n
         t, r = np.array(t0, float), np.array(r0, float)
@@ -474,13 +866,19 @@ def energy_profile(name, d, mass, T, t0, r0, tau=1.0, levels=(16, 32, 64)):
             t, r = chain.run_leapfrog(t.copy(), r.copy(), 1)
             worst = max(worst, abs(chain.hamiltonian(t, r) - H0))
         out.append(worst)
+        if keep:
+            kg.audit(), kp.audit()
+            if tamper_out is not None:
+                tamper_out.extend(kg.tampered + kp.tampered)
     return out
 
 
 def oracle_energy_order(rs, n_trials):
     """[R] the energy error shrinks ~4x when the step is halved (smooth non-quadratic densities)."""
-    bad, ratios = [], []
+    bad, ratios, modified = [], [], []
     for k in range(n_trials):
+        keep = [None, "memo", "buffer"][(k // 3) % 3]
+        tampered = []
         name = ["quartic", "logcosh"][k % 2]
         d = 1 + (k // 2) % 3
         mk = k % 3
@@ -496,16 +894,19 @@ def oracle_energy_order(rs, n_trials):
         try:
             with warnings.catch_warnings():
                 warnings.simplefilter("ignore")
-                e = energy_profile(name, d, mass, T, t0, r0)
+                e = energy_profile(name, d, mass, T, t0, r0, keep=keep, tamper_out=tampered)
         except Exception as ex:
-            bad.append({"density": name, "t0": t0, "r0": r0, "error": repr(ex)})
+            bad.append({"density": name, "t0": t0, "r0": r0, "keep": keep, "error": repr(ex)})
             continue
+        if tampered:
+            modified.append({"density": name, "d": d, "mass": np.asarray(mass).tolist(), "T": T, "t0": t0, "r0": r0,
+                             "keep": keep, "modified": tampered[0]})
         rr = [e[i] / e[i + 1] if e[i + 1] > 0 else float("inf") for i in range(len(e) - 1)]
         ratios.append(rr)
         if not all(math.isfinite(x) for x in e) or not all(2.9 <= x <= 5.5 for x in rr):
             bad.append({"density": name, "d": d, "mass": np.asarray(mass).tolist(), "T": T, "t0": t0, "r0": r0,
-                        "max_energy_error_for_eps_1/16_1/32_1/64": e, "ratios": rr})
-    return bad, ratios
+                        "keep": keep, "max_energy_error_for_eps_1/16_1/32_1/64": e, "ratios": rr})
+    return bad, ratios, modified
 
 
 def oracle_momentum_law(case_mass, d, seed):
@@ -573,10 +974,28 @@ def gen_energy_case(r, exact):
 
 
 def run_energy(case):
+    """case["post_keeper"] in (None, "memo", "buffer"): the log-density function returns a 0-d array
+    it keeps; hamiltonian is then asked twice at the same point (the cached array is returned again)."""
     try:
-        chain, _, _ = make_chain(case)
+        keep = case.get("post_keeper")
+        box = {}
+
+        def wrap(f):
+            box["p"] = KeeperPost(keep, f)
+            return box["p"]
+        chain, _, _ = make_chain(case, post_wrap=wrap if keep else None)
         H = chain.hamiltonian(fl(case["t"]), fl(case["r"]))
         K = chain.kinetic_energy(fl(case["r"]))
+        if keep:
+            H2 = chain.hamiltonian(fl(case["t"]), fl(case["r"]))
+            box["p"].audit()
+            if box["p"].tampered:
+                w = box["p"].tampered[0]
+                return {"status": "tampered", "error": "the library wrote into the 0-d array returned by the user's "
+                        f"log-density function: it had returned {w['returned']!r} and holds {w['found']!r}"}
+            if not H2 == H:
+                return {"status": "tampered", "error": f"hamiltonian at the same point gives {H!r}, then {H2!r}, when "
+                        "the log-density function returns an array it keeps"}
         return {"status": "ok", "H": F(H), "K": F(K)}
     except Exception as e:
         return {"status": "exception", "error": repr(e)}
@@ -612,18 +1031,26 @@ class TablePosterior:
     """Scripted posterior for finite_diff: value P at t, P_i at a point whose first
     coordinate differing from t is i; records every evaluation point."""
 
-    def __init__(self, t, P, Ps):
+    def __init__(self, t, P, Ps, keep=False):
         self.t = np.array(t, float)
         self.P, self.Ps = float(P), [float(x) for x in Ps]
         self.points = []
+        # keep=True: the table values are 0-d arrays the posterior stores and hands out by reference
+        self.keep = keep
+        self.aP, self.aPs = np.array(self.P), [np.array(x) for x in self.Ps]
+
+    def modified(self):
+        """table entries the caller wrote into (keep=True)"""
+        out = [] if float(self.aP) == self.P else [("P", self.P, float(self.aP))]
+        return out + [(f"Ps[{i}]", v, float(a)) for i, (v, a) in enumerate(zip(self.Ps, self.aPs)) if float(a) != v]
 
     def __call__(self, x):
         x = np.asarray(x, float)
         self.points.append(x.copy())
         diff = np.nonzero(x != self.t)[0]
         if len(diff) == 0:
-            return self.P
-        return self.Ps[int(diff[0])]
+            return self.aP if self.keep else self.P
+        return self.aPs[int(diff[0])] if self.keep else self.Ps[int(diff[0])]
 
 
 def gen_fd_case(r):
@@ -640,12 +1067,13 @@ def gen_fd_case(r):
         else:
             t.append(Fraction(r.randint(-200, 200), 16) or Fraction(3, 16))
     return {"T": r.choice([Fraction(1), Fraction(2), Fraction(1, 2), Fraction(4)]), "t": t,
-            "P": Fraction(r.randint(-512, 512), 32), "Ps": [Fraction(r.randint(-512, 512), 32) for _ in range(d)]}
+            "P": Fraction(r.randint(-512, 512), 32), "Ps": [Fraction(r.randint(-512, 512), 32) for _ in range(d)],
+            "keep": r.random() < 0.5}
 
 
 def run_fd(case):
     d = len(case["t"])
-    tp = TablePosterior(case["t"], case["P"], case["Ps"])
+    tp = TablePosterior(case["t"], case["P"], case["Ps"], keep=bool(case.get("keep")))
     cc = {"mass": ("scalar", Fraction(1)), "T": case["T"], "eps": Fraction(1, 2),
           "A": [[Fraction(0)] * d for _ in range(d)], "b": [Fraction(0)] * d, "bounds": None,
           "t": case["t"], "r": [Fraction(0)] * d, "n": 1, "start": [Fraction(1)] * d}
@@ -656,6 +1084,10 @@ def run_fd(case):
             tp.points.clear()
             G = np.asarray(chain.grad(fl(case["t"])), float)
         pts = [p for p in tp.points if (p != tp.t).any()]
+        if tp.modified():
+            name, was, now = tp.modified()[0]
+            return {"status": "tampered", "error": "finite_diff wrote into a 0-d array returned by the user's "
+                    f"log-density function (table entry {name}: returned {was!r}, now {now!r})"}
         if not np.isfinite(G).all():
             return {"status": "nonfinite", "G": G.tolist(), "error": f"finite_diff returned {G.tolist()}"}
         return {"status": "ok", "G": [F(x) for x in G], "pts": [[F(x) for x in p] for p in pts],
@@ -692,6 +1124,12 @@ def chunked(lst, n):
 
 
 # ---------------------------------------------------------------- finite_diff inside a bounds box
+HEADER_S = """From Coq Require Import List QArith ZArith.
+From IT Require Import Model.Leapfrog Model.LeapfrogShared.
+Import ListNotations.
+Open Scope Q_scope.
+"""
+
 HEADER_B = """From Coq Require Import List QArith ZArith.
 From IT Require Import Model.Leapfrog Model.FiniteDiffBounded.
 Import ListNotations.
@@ -723,12 +1161,13 @@ def bounded_fd_part(rep, r, n_cases):
             t.append(v)
         P = Fraction(r.randint(-512, 512), 32)
         Ps = [Fraction(r.randint(-512, 512), 32) for _ in range(d)]
-        tp = TablePosterior(t, P, Ps)
+        tp = TablePosterior(t, P, Ps, keep=(k % 2 == 1))
         cc = {"mass": ("scalar", Fraction(1)), "T": r.choice([Fraction(1), Fraction(2), Fraction(1, 2)]),
               "eps": Fraction(1, 2), "A": [[Fraction(0)] * d for _ in range(d)], "b": [Fraction(0)] * d,
               "bounds": (lo, hi), "t": t, "r": [Fraction(0)] * d, "n": 1, "start": t}
         meta = {"kind": "finite_diff_bounded", "lower": [str(v) for v in lo], "upper": [str(v) for v in hi],
-                "t": [str(v) for v in t], "P": str(P), "Ps": [str(v) for v in Ps], "T": str(cc["T"])}
+                "t": [str(v) for v in t], "P": str(P), "Ps": [str(v) for v in Ps], "T": str(cc["T"]),
+                "posterior_returns_kept_0d_arrays": tp.keep}
         try:
             with warnings.catch_warnings():
                 warnings.simplefilter("ignore")
@@ -740,6 +1179,15 @@ def bounded_fd_part(rep, r, n_cases):
             rep.violation("C07/finite-diff-bounded/exception", f"finite_diff with bounds raised {e!r}", {"case": meta}, True)
             continue
         rep.count("finite_diff_bounded/" + ("on-wall" if any(v in (l, u_) for v, l, u_ in zip(t, lo, hi)) else "interior"))
+        if tp.keep:
+            rep.count("finite_diff_bounded/posterior-returns-kept-0d-arrays")
+        if tp.modified():
+            name, was, now = tp.modified()[0]
+            if not any(v["key"] == "C07/returned-array-modified" and "with bounds" in v["what"] for v in rep.violations):
+                rep.violation("C07/returned-array-modified", "finite_diff with bounds wrote into a 0-d array returned by the "
+                              f"user's log-density function (table entry {name}: returned {was!r}, now {now!r})",
+                              {"case": meta}, True)
+            continue
         rep.case(("fdb", meta["lower"], meta["upper"], meta["t"], meta["P"], meta["Ps"]))
         if not np.isfinite(G).all() or len(pts) != d:
             rep.violation("C07/finite-diff-bounded", f"finite_diff with bounds returned {G.tolist()} using {len(pts)} difference points",
@@ -789,8 +1237,18 @@ def run(rep: C.Report, tier: str) -> int:
         reported.add(key)
         rep.violation(key, what, replay, found)
 
+    import time as _time
+    phases, _t0 = {}, [_time.time()]
+
+    def phase(name):
+        now = _time.time()
+        phases[name] = round(phases.get(name, 0.0) + now - _t0[0], 2)
+        _t0[0] = now
+        rep.coverage["phase_seconds"] = phases
+
     C.clean_gen(PROP)
     C.prove_and_audit(rep, PROP, THEOREMS)
+    phase("audit")
     r = C.rng_for(PROP, "cases")
     rs = C.rng_for(PROP, "search")
 
@@ -847,13 +1305,82 @@ def run(rep: C.Report, tier: str) -> int:
         lf_tol.append((case, obs))
     groups["lf_tol"] = lf_tol
 
+    # ---- leapfrog with a gradient callable that KEEPS the array it returns, over call histories
+    n_sh = 160 if not thorough else 1600
+    n_sh_tol = 16 if not thorough else 160
+    rsh = C.rng_for(PROP, "shared")
+    phase("run implementation: leapfrog cases")
+    sh_exact, sh_tol, sh_all = [], [], []
+    for k in range(n_sh + n_sh_tol):
+        exact = k < n_sh
+        bounded = (k % 2 == 1)
+        case = gen_shared_case(rsh, bounded, exact)
+        case["exact"] = exact
+        obs = run_shared(case, exact=exact)
+        rep.count(f"shared/{'exact' if exact else 'tol'}/{'bounded' if bounded else 'free'}/grad-returns-{case['keeper']}")
+        rep.case(("sh", ser(case)), nontrivial=True)
+        sh_all.append(case)
+        if obs["status"] != "ok":
+            suspicious.append(("shared", case, obs, obs.get("error")))
+            continue
+        rep.count(f"shared/run_leapfrog-calls-on-one-chain={len(obs['reqs'])}")
+        rep.count("shared/mass=" + case["mass"][0])
+        if obs["memo_hits"]:
+            rep.count("shared/cached-array-returned-again")
+        if case["n"] >= 2:
+            rep.count("shared/loop-body-executed")
+        if obs["tampered"]:
+            suspicious.append(("shared", case, obs, "the array returned by the gradient function was modified"))
+            continue
+        if not exact and obs["near_wall"]:
+            rep.count("shared/tol/skipped-within-1e-9-of-wall")
+            continue
+        (sh_exact if exact else sh_tol).append((case, obs))
+        if len(sh_exact) == 1 and exact:
+            rep.sample({"kind": "shared-exact", "case": describe(case),
+                        "impl_outputs": [[[float(x) for x in t], [float(x) for x in r_]] for t, r_ in obs["outs"]],
+                        "callable_array_afterwards": None if obs["kept"] is None else [float(x) for x in obs["kept"]]})
+    # ---- the same, with the histories the sampler itself produces (take_step on one chain)
+    n_ts = 30 if not thorough else 300
+    for k in range(n_ts):
+        for _ in range(50):
+            case = gen_shared_case(rsh, k % 2 == 1, True)
+            if case["mass"][0] != "matrix":
+                break
+        case["history"], case["exact"] = [], True
+        ts = {"seed": rsh.randrange(1 << 30), "steps": rsh.choice([2, 3, 4]), "n_take": 3}
+        obs = run_takestep(case, ts["seed"], ts["steps"], ts["n_take"])
+        rep.count(f"shared/take_step-history/grad-returns-{case['keeper']}")
+        rep.case(("ts", ser(case), ts), nontrivial=True)
+        if obs["status"] != "ok" or obs["tampered"]:
+            suspicious.append(("takestep", dict(case, takestep=ts), obs, obs.get("error") or "returned array modified"))
+            continue
+        bad = oracle_takestep(case, ts["seed"], ts["steps"], ts["n_take"])
+        if bad:
+            suspicious.append(("takestep", dict(case, takestep=ts), obs, bad))
+            continue
+        c2, o2 = takestep_as_history(case, obs)
+        if c2 is None:
+            rep.count("shared/take_step-history/outside-bit-budget")
+            continue
+        rep.count(f"shared/take_step-history/run_leapfrog-calls-compared={len(o2['reqs'])}")
+        if obs["gave_up"]:
+            rep.count("shared/take_step-history/every-proposal-rejected")
+        sh_exact.append((c2, o2))
+        sh_all.append(c2)
+    groups["sh_exact"], groups["sh_tol"] = sh_exact, sh_tol
+    phase("run implementation: shared-array cases")
+
     # ---- hamiltonian / kinetic energy
     en_exact, en_tol = [], []
     for k in range(n_energy):
         exact = k % 3 != 2
         case = gen_energy_case(r, exact)
+        case["post_keeper"] = [None, "memo", "buffer"][(k // 3) % 3]
         obs = run_energy(case)
         rep.count(f"energy/{'exact' if exact else 'tol'}/{case['mass'][0]}")
+        if case["post_keeper"]:
+            rep.count("energy/posterior-returns-kept-0d-array/" + case["post_keeper"])
         rep.case(("en", ser(case)))
         if obs["status"] != "ok":
             suspicious.append(("energy", case, obs, obs.get("error")))
@@ -894,6 +1421,8 @@ def run(rep: C.Report, tier: str) -> int:
         zero = any(x == 0 for x in case["t"])
         small = any(0 < abs(x) < Fraction(1, 1000) for x in case["t"])
         rep.count("finite_diff/" + ("zero-coordinate" if zero else "below-floor" if small else "relative-step"))
+        if case.get("keep"):
+            rep.count("finite_diff/posterior-returns-kept-0d-arrays")
         rep.case(("fd", ser(case)))
         if obs["status"] != "ok":
             suspicious.append(("finite_diff", case, obs, obs.get("error")))
@@ -902,10 +1431,10 @@ def run(rep: C.Report, tier: str) -> int:
     groups["fd"] = fd
 
     # ---- write the case files
-    def emit(group, name, typ, texts, evals, chunk):
+    def emit(group, name, typ, texts, evals, chunk, header=HEADER):
         for ci, part in chunked(list(enumerate(texts)), chunk):
             body = f"Definition cases : list ({typ}) :=\n " + C.clist([t for _, t in part], ";\n ") + "."
-            p = C.write_case_file(PROP, f"{name}_{ci}", HEADER, body, evals)
+            p = C.write_case_file(PROP, f"{name}_{ci}", header, body, evals)
             files.append(p)
             meta.append((group, [i for i, _ in part]))
 
@@ -913,6 +1442,10 @@ def run(rep: C.Report, tier: str) -> int:
     TOL = "(1 # 1000000000000)"
     emit("lf_exact", "lf_exact", "lf_case", [coq_lf(c, o) for c, o in lf_exact], ["failing check_exact cases 0"], 40)
     emit("lf_tol", "lf_tol", "lf_case", [coq_lf(c, o) for c, o in lf_tol], [f"failing (check_tol {TOL}) cases 0"], 10)
+    emit("sh_exact", "shared_exact", "sh_case", [coq_shared(c, o) for c, o in sh_exact],
+         ["failing check_shared_exact cases 0"], 40, header=HEADER_S)
+    emit("sh_tol", "shared_tol", "sh_case", [coq_shared(c, o) for c, o in sh_tol],
+         [f"failing (check_shared_tol {TOL}) cases 0"], 4, header=HEADER_S)
     emit("en_exact", "energy_exact", EN_T, [coq_energy(c, o) for c, o in en_exact],
          ["failing check_energy_exact cases 0"], 100)
     emit("en_tol", "energy_tol", EN_T, [coq_energy(c, o) for c, o in en_tol],
@@ -927,7 +1460,9 @@ def run(rep: C.Report, tier: str) -> int:
     emit("fd", "finite_diff", "Q * Q * Q * vec * Q * vec * list vec * vec", [coq_fd(c, o) for c, o in fd],
          ["failing check_fd cases 0"], 50)
 
+    phase("run implementation: energy, momentum, finite_diff")
     outs = C.run_case_files(files, jobs=14)
+    phase("coq case files")
     checked = {g: 0 for g in groups}
     for p, (g, idx), (ok, res, log) in zip(files, meta, outs):
         if not ok or 0 not in res:
@@ -962,7 +1497,35 @@ def run(rep: C.Report, tier: str) -> int:
                               "on this input (see the energy / momentum oracles below)",
                               {"theorem_or_correspondence": "Model.Leapfrog.check_exact / check_tol",
                                "case": describe(case), "impl_output": ser(obs)}, False)
+        elif g == "takestep":
+            ts = case["takestep"]
+            bad = oracle_takestep(case, ts["seed"], ts["steps"], ts["n_take"])
+            if bad:
+                viol("C07/returned-array-modified" if "wrote into" in bad else "C07/kept-array-trajectory", bad,
+                     {"kind": "takestep", "case": describe(case)}, True)
+            else:
+                viol("C07/exception", f"take_step with callables that keep their arrays: {why}",
+                     {"kind": "takestep", "case": describe(case)}, True)
+        elif g in ("shared", "sh_exact", "sh_tol"):
+            cls, bad = oracle_shared(case, case["exact"])
+            if bad:
+                small = shrink_shared(case, case["exact"])
+                cls, bad = oracle_shared(small, small["exact"])
+                key = {"exception": "C07/exception", "modified": "C07/returned-array-modified"}.get(
+                    cls, "C07/kept-array-trajectory")
+                viol(key, bad, {"kind": "shared", "case": describe(small)}, True)
+            else:
+                viol("C07/correspondence/shared",
+                     f"run_leapfrog with a gradient function that returns {KEEPER_WORDS[case['keeper']]} and the "
+                     f"shared-array model disagree ({why}); the returned array is intact and the trajectories are "
+                     "those of a fresh-array gradient function",
+                     {"theorem_or_correspondence": "Model.LeapfrogShared.check_shared_exact / check_shared_tol",
+                      "case": describe(case), "impl_output": ser(obs)}, False)
         elif g in ("energy", "en_exact", "en_tol"):
+            if obs is not None and obs.get("status") == "tampered":
+                viol("C07/returned-array-modified", f"hamiltonian: {why}",
+                     {"kind": "energy_keep", "case": describe(case)}, True)
+                continue
             viol("C07/correspondence/energy", f"hamiltonian / kinetic_energy and the model disagree ({why})",
                           {"theorem_or_correspondence": "Model.Leapfrog.check_energy_exact / check_energy_tol",
                            "case": describe(case), "impl_output": ser(obs)}, False)
@@ -980,6 +1543,9 @@ def run(rep: C.Report, tier: str) -> int:
                               {"theorem_or_correspondence": "Model.Leapfrog.check_momentum_diag / _matrix",
                                "case": ser(case), "impl_output": ser(obs)}, False)
         elif g in ("finite_diff", "fd"):
+            if obs is not None and obs.get("status") == "tampered":
+                viol("C07/returned-array-modified", why, {"kind": "fd_keep", "case": ser(case)}, True)
+                continue
             qc = fd_quadratic_case(case, rs)
             bad = oracle_fd(qc)
             if bad:
@@ -1009,8 +1575,27 @@ def run(rep: C.Report, tier: str) -> int:
         if bad:
             viol("C07/reversibility", bad, {"kind": "reversibility", "case": describe(case)}, True)
     rep.coverage["reversibility_oracle_runs"] = n_rev
+    phase("oracles: reversibility")
 
-    bad, ratios = oracle_energy_order(rs, 12 if not thorough else 60)
+    n_sho = 0
+    for case in sh_all:
+        cls, bad = oracle_shared(case, case["exact"])
+        n_sho += 1
+        if bad:
+            small = shrink_shared(case, case["exact"])
+            cls, bad = oracle_shared(small, small["exact"])
+            key = {"exception": "C07/exception", "modified": "C07/returned-array-modified"}.get(
+                cls, "C07/kept-array-trajectory")
+            viol(key, bad, {"kind": "shared", "case": describe(small)}, True)
+            break
+    rep.coverage["kept_array_oracle_runs"] = n_sho
+    phase("oracles: kept arrays")
+
+    bad, ratios, modified = oracle_energy_order(rs, 12 if not thorough else 60)
+    for b in modified[:1]:
+        viol("C07/returned-array-modified",
+             "a step-halving trajectory wrote into an array returned by the user's gradient / log-density function: "
+             f"{b['modified']}", {"kind": "energy_order", "case": b}, True)
     rep.coverage["energy_error_ratios_on_step_halving"] = ratios[:6]
     for b in bad[:2]:
         viol("C07/energy-order",
@@ -1055,17 +1640,25 @@ def run(rep: C.Report, tier: str) -> int:
         "sqrt_mass^2 * inv_mass = 1 (exact) / L^T M^-1 L = I (1e-12) is checked on them inside Coq",
         "O(eps^2) energy error is a theorem only for quadratic potentials; for smooth non-quadratic ones it is the "
         "[R] step-halving test on the implementation",
+        "callables that keep what they return: the gradient function is one of the four kinds of "
+        "Model.LeapfrogShared.keeper (new array / stored vector / one-entry cache / output buffer); a log-density "
+        "function that rewrites ONE 0-d buffer on every call is not used with finite_diff (which by design holds the "
+        "base value across the calls at the shifted points)",
     ]
+    phase("oracles: energy order, finite_diff, momentum, D8")
     bounded_fd_part(rep, C.rng_for(PROP, "fd-bounded"), 60 if tier == "quick" else 600)
-    try:
-        _a = C.coq_audit(PROP + "_fdb", ["C07_finite_diff_b_exact_on_quadratics", "C07_finite_diff_b_error_bound",
-                                          "C07_finite_diff_b_step"], "IT.Properties.C07Bounded")
-        rep.obligation(True, 3)
-        rep.coverage["bounded_finite_diff_audit"] = _a
+    phase("bounded finite_diff")
+    FDB_THEOREMS = ["C07_finite_diff_b_exact_on_quadratics", "C07_finite_diff_b_error_bound", "C07_finite_diff_b_step"]
+    try:      # one coqc run for both extension modules
+        _a = C.coq_audit(PROP + "_ext", FDB_THEOREMS + SHARED_THEOREMS,
+                         "IT.Properties.C07Bounded IT.Properties.C07Shared")
+        rep.obligation(True, len(FDB_THEOREMS) + len(SHARED_THEOREMS))
+        rep.coverage["bounded_finite_diff_and_shared_array_audit"] = _a
     except C.ProofFailure as _e:
-        rep.obligation(False, 3)
+        rep.obligation(False, len(FDB_THEOREMS) + len(SHARED_THEOREMS))
         rep.violation("C07/proof", f"proof obligation no longer checks: {_e.what}",
                       {"theorem_or_correspondence": _e.what, "log": _e.log[-1000:]}, False)
+    phase("audits of C07Bounded / C07Shared")
     return rep.finish(
         level="proof",
         checker_cmd="make -C /verif/coq (coqc 8.16.1, full .vo) + coqc on coq/gen/C07/*.v (vm_compute)",
@@ -1077,7 +1670,12 @@ def run(rep: C.Report, tier: str) -> int:
              "sample_momentum with a scripted generator; finite_diff with a scripted posterior at points with zero, "
              "tiny and ordinary coordinates, and (Model.FiniteDiffBounded) inside a bounds box with points on the wall the "
              "relative step points at, on the other wall and inside; a share of the chains has an estimate_mass "
-             "history before the compared trajectory; distinct = distinct serialised inputs")
+             "history before the compared trajectory; shared-array cases (Model.LeapfrogShared): the gradient function "
+             "returns a new array / its stored vector (linear log-densities -rate.x, also truncated to a box) / a "
+             "cached array / its output buffer, 1-4 run_leapfrog calls on one chain (a new request, the reversed "
+             "previous output, the same request again), trajectory outputs and the final content of the callable's "
+             "array compared exactly (dyadic) or at 1e-12; hamiltonian / finite_diff with log-density functions that "
+             "return 0-d arrays they keep; distinct = distinct serialised inputs")
 
 
 # ------------------------------------------------------------------ replay
@@ -1085,6 +1683,28 @@ def replay(path):
     d = json.load(open(path))
     rp = d["replay"]
     kind = rp.get("kind")
+    if kind is None and isinstance(rp.get("case"), dict) and rp["case"].get("kind") == "finite_diff_bounded":
+        m = rp["case"]
+        lo, hi, t = [Fraction(v) for v in m["lower"]], [Fraction(v) for v in m["upper"]], [Fraction(v) for v in m["t"]]
+        d = len(t)
+        tp = TablePosterior(t, Fraction(m["P"]), [Fraction(v) for v in m["Ps"]],
+                            keep=bool(m.get("posterior_returns_kept_0d_arrays")))
+        cc = {"mass": ("scalar", Fraction(1)), "T": Fraction(m["T"]), "eps": Fraction(1, 2), "A": zero_matrix(d),
+              "b": [Fraction(0)] * d, "bounds": (lo, hi), "t": t, "r": [Fraction(0)] * d, "n": 1, "start": t}
+        try:
+            with warnings.catch_warnings():
+                warnings.simplefilter("ignore")
+                chain, _, _ = make_chain(cc, grad_given=False, posterior=tp)
+                tp.points.clear()
+                G = np.asarray(chain.grad(fl(t)), float)
+        except Exception as e:
+            print("finite_diff with bounds raised", repr(e))
+            return 1
+        pts = [pt for pt in tp.points if (pt != tp.t).any()]
+        inside = all(float(l) <= x <= float(u_) for pt in pts for x, l, u_ in zip(pt, lo, hi))
+        print("finite_diff with bounds:", G.tolist(), "difference points inside the box:", inside,
+              "table entries written into:", tp.modified())
+        return 1 if (tp.modified() or not np.isfinite(G).all() or len(pts) != d or not inside) else 0
     if kind is None:
         print("replay names a broken theorem / correspondence:", rp.get("theorem_or_correspondence"))
         return 1
@@ -1108,10 +1728,39 @@ def replay(path):
     if kind == "energy_order":
         c = rp["case"]
         mass = np.array(c["mass"]) if isinstance(c["mass"], list) else float(c["mass"])
-        e = energy_profile(c["density"], c["d"], mass, c["T"], c["t0"], c["r0"])
+        tampered = []
+        e = energy_profile(c["density"], c["d"], mass, c["T"], c["t0"], c["r0"], keep=c.get("keep"), tamper_out=tampered)
         rr = [e[i] / e[i + 1] for i in range(len(e) - 1)]
-        print("max energy errors:", e, "ratios:", rr)
-        return 0 if all(2.9 <= x <= 5.5 for x in rr) else 1
+        print("max energy errors:", e, "ratios:", rr, "arrays of the callables written into:", tampered[:1])
+        return 0 if all(2.9 <= x <= 5.5 for x in rr) and not tampered else 1
+    if kind == "shared":
+        case = deser(rp["case"])
+        case["bounds"] = tuple(case["bounds"]) if case.get("bounds") else None
+        case["mass"] = tuple(case["mass"])
+        case["history"] = [tuple(o) for o in case.get("history", [])]
+        cls, bad = oracle_shared(case, bool(case.get("exact")))
+        print(f"gradient function returning {KEEPER_WORDS[case['keeper']]}:", bad or "array intact, trajectories as "
+              "with a fresh-array gradient function, reversible")
+        return 1 if bad else 0
+    if kind == "takestep":
+        case = deser(rp["case"])
+        case["bounds"] = tuple(case["bounds"]) if case.get("bounds") else None
+        case["mass"] = tuple(case["mass"])
+        ts = case["takestep"]
+        bad = oracle_takestep(case, int(ts["seed"]), int(ts["steps"]), int(ts["n_take"]))
+        print("take_step with callables that keep their arrays:", bad or "same chain as with fresh arrays, arrays intact")
+        return 1 if bad else 0
+    if kind == "energy_keep":
+        case = deser(rp["case"])
+        case["bounds"] = tuple(case["bounds"]) if case.get("bounds") else None
+        case["mass"] = tuple(case["mass"])
+        obs = run_energy(case)
+        print("hamiltonian with a log-density function that keeps its 0-d array:", obs.get("error") or "fine")
+        return 0 if obs["status"] == "ok" else 1
+    if kind == "fd_keep":
+        obs = run_fd(deser(rp["case"]))
+        print("finite_diff with a log-density function that keeps its 0-d arrays:", obs.get("error") or "fine")
+        return 0 if obs["status"] == "ok" else 1
     if kind == "leapfrog":
         case = deser(rp["case"])
         case["bounds"] = tuple(case["bounds"]) if case.get("bounds") else None
